@@ -98,6 +98,15 @@ func VerifC19Faithful() {
 	nd.Assume(len(name2) > 0 && vNoSep(name2, "= ") && name2[0] < 0x80)
 	nd.Assume(formatArgType(ArgType(name)) != formatArgType(ArgType(name2)))
 	tag := v + "," + name + "=" + text + "," + name2
+	// optionally a further valued argument with fewer items than the first one
+	third := nd.Param("THIRD", 1) == 1 && nd.Bool()
+	b3 := ""
+	if third {
+		b3 = nd.StringUpTo(L)
+		nd.Assume(len(b3) > 0 && vNoSep(b3, " "))
+		nd.Assume(formatArgType(ArgType(name)) != "Zq" && formatArgType(ArgType(name2)) != "Zq")
+		tag += ",zq=" + b3
+	}
 	args := make(TagArg)
 	got := args.Parse(tag)
 	nd.Assert(got == v, "C19: the text before the first top-level comma is the value")
@@ -107,7 +116,14 @@ func VerifC19Faithful() {
 	vals2, ok2 := args.Find(ArgType(vSwapFirstCase(name)))
 	nd.Assert(ok2 && vEqStrs(vals2, items), "C19: an argument name is matched regardless of the case of its first letter")
 	nd.Assert(args.Has(ArgType(name2)), "C19: an argument without '=' is present")
-	nd.Assert(len(args) == 2, "C19: exactly the written arguments are present")
+	if third {
+		nd.Cover("several valued arguments")
+		vals3, ok3 := args.Find(ArgType("zq"))
+		nd.Assert(ok3 && vEqStrs(vals3, []string{b3}), "C19: each segment name=v1 v2 yields its own values")
+		nd.Assert(len(args) == 3, "C19: exactly the written arguments are present")
+	} else {
+		nd.Assert(len(args) == 2, "C19: exactly the written arguments are present")
+	}
 	if bracketValue {
 		nd.Cover("bracketed value")
 	}
@@ -143,4 +159,11 @@ func VerifC19RequiredFaithful() {
 	nd.Assert(q.IsRequired(), "C19: only its own explicit required=false makes a point optional")
 	got, _ := q.Args().Find(ArgQualifier)
 	nd.Assert(len(got) == 1 && got[0] == y, "C19: an argument's values are exactly the items written in its own tag")
+	// the argument set handed out by Args() is the point's own: what a processor changes through it is what IsRequired answers from
+	q3 := NewProperty(nil, PropertyTypeComponent, "wire", "v,qualifier="+y)
+	q3.Args().Set(ArgRequired, "false")
+	nd.Assert(!q3.IsRequired(), "C19: an explicit required=false set through Args() makes the point optional")
+	q4 := NewProperty(nil, PropertyTypeComponent, "wire", "v,required=false")
+	q4.Args().Set(ArgRequired, "true")
+	nd.Assert(q4.IsRequired(), "C19: only an explicit required=false makes a point optional (it was replaced through Args())")
 }
